@@ -27,10 +27,18 @@ for n in names:
     try:
         checks = {}
         which = [meta["breaks_property"]] if own else props
-        for p in which:
+
+        def one(p):
             pr = subprocess.run("/verif/check %s --tier quick" % p, shell=True, capture_output=True, text=True)
             vio = [l for l in pr.stdout.splitlines() if ": %s-" % p in l and "[" in l and not l.startswith("KNOWN")]
-            checks[p] = {"exit": pr.returncode, "violations": vio}
+            return p, {"exit": pr.returncode, "violations": vio}
+        # the first check builds the analysis of this tree; the rest share it
+        p0, c0 = one(which[0])
+        checks[p0] = c0
+        from concurrent.futures import ThreadPoolExecutor
+        with ThreadPoolExecutor(5) as ex:
+            for p, c in ex.map(one, which[1:]):
+                checks[p] = c
     finally:
         subprocess.run("git -C /repo checkout -- . && git -C /repo clean -fdq crates", shell=True)
     det = sorted(p for p, c in checks.items() if c["exit"] == 1)
